@@ -105,15 +105,16 @@ Proof. intros s l H. apply literal_roundtrip_g. exact (parse_literal_gdom _ _ H)
 Lemma object_accept_stable : forall s o, parse_object O s = Ok o -> parse_object O (print_object O o) = Ok o.
 Proof. intros s o H. apply (object_roundtrip_g O (alaw_quote O A)). exact (parse_object_gdom _ _ H). Qed.
 
-(* triple: the components of an accepted triple are in the domain; stability needs, in addition, what the split
-   expressions need: no space in the predicate id, no form feed in the subject type *)
+(* triple: the components of an accepted triple are in the domain; stability needs, in addition, what the subject split
+   expression needs: no form feed in the subject type *)
 Lemma parse_triple_components : forall s t, parse_triple O s = Ok t ->
   dom_node (subj t) = true /\ gdom_pred O (tpred t) /\ gdom_object O (tobj t).
 Proof.
   intros s t. unfold parse_triple, idx.
   destruct (p_split (trim_space s)) as [[ps pe]|]; [|discriminate].
-  destruct (slice (trim_space s) (Z.of_nat (pe - 1)) (zlen (trim_space s))) as [rest|]; [|discriminate].
-  destruct (o_split_from rest (pe - 1)) as [[os oe]|]; [|discriminate].
+  destruct (slice (trim_space s) (Z.of_nat (pe - 1) + 1) (zlen (trim_space s))) as [aq|]; [|discriminate].
+  destruct (slice (trim_space s) (Z.of_nat (pe - 1 + 1 + skip_quoted aq)) (zlen (trim_space s))) as [rest|]; [|discriminate].
+  destruct (o_split_from rest (pe - 1 + 1 + skip_quoted aq)) as [[os oe]|]; [|discriminate].
   destruct (slice (trim_space s) 0 (Z.of_nat ps + 1)) as [ss|]; [|discriminate].
   destruct (slice (trim_space s) (Z.of_nat pe - 1) (Z.of_nat os + 1)) as [sp|]; [|discriminate].
   destruct (slice (trim_space s) (Z.of_nat oe - 1) (zlen (trim_space s))) as [so|]; [|discriminate].
@@ -125,10 +126,10 @@ Proof.
 Qed.
 
 Lemma triple_accept_stable_partial : forall s t, parse_triple O s = Ok t ->
-  memb c_space (pid (tpred t)) = false -> memb x0c (ntype (subj t)) = false ->
+  memb x0c (ntype (subj t)) = false ->
   parse_triple O (print_triple O t) = Ok t.
 Proof.
-  intros s t H Hsp Hff. destruct (parse_triple_components _ _ H) as [Hn [Hp Ho]].
+  intros s t H Hff. destruct (parse_triple_components _ _ H) as [Hn [Hp Ho]].
   apply (triple_roundtrip_g O (alaw_quote O A)). unfold gdom_triple. repeat split; try assumption; apply Hp.
 Qed.
 
